@@ -715,12 +715,13 @@ func c19monitor(c *ctx, dir string, cs c19case, rate int64, p mux.Verif19Params,
 	for i, x := range ins {
 		pre[i+1] = pre[i] + x.n
 	}
-	thmMax := p.Cap
+	// capacity of the theorem's instance = one second's worth of the configured rate (what MakeValve must build)
+	thmMax := rate
 	if M+p.Q-1 > thmMax {
 		thmMax = M + p.Q - 1
 	}
 	detail := func(i, j int, bytes, bound int64) map[string]any {
-		return map[string]any{"case": caseKey, "direction": dir, "rate": rate, "capacity": p.Cap, "quantum": p.Q, "fillInterval_ns": p.FI,
+		return map[string]any{"case": caseKey, "direction": dir, "rate": rate, "capacity": p.Cap, "one_second_worth": rate, "quantum": p.Q, "fillInterval_ns": p.FI,
 			"largest_message": M, "from_ns": ins[i].t, "to_ns": ins[j].t, "bytes_in_interval": bytes, "bound": bound,
 			"sessions": cs.nsess, "conns": cs.nconn, "streams": cs.nstream, "unordered": cs.unordered, "kind": cs.kind}
 	}
@@ -813,6 +814,7 @@ func c19sub(c *ctx) {
 	if c.thorough() {
 		ncases = 12
 	}
+	var deferred []c19hit
 	synctest.Run(func() {
 		for i := 0; i < ncases; i++ {
 			kind := "mixed"
@@ -834,11 +836,11 @@ func c19sub(c *ctx) {
 				p    mux.Verif19Params
 			}{{cs.rxRate, rxP}, {cs.txRate, txP}} {
 				if pp.p.Cap > pp.rate+pp.rate/100 {
-					c.o.V("C19 bucket capacity is more than one second's worth of the configured rate", map[string]any{"case": key, "rate": pp.rate, "capacity": pp.p.Cap})
+					deferred = append(deferred, c19hit{"C19 bucket capacity is more than one second's worth of the configured rate", map[string]any{"case": key, "rate": pp.rate, "capacity": pp.p.Cap}})
 				}
 				if !c19rateOKexact(pp.p.Q, pp.p.FI, pp.rate) {
-					c.o.V("C19 constructor-rate-outside-1%: the limiter's real rate differs from the configured rate by more than 1 %",
-						map[string]any{"case": key, "rate": pp.rate, "quantum": pp.p.Q, "fillInterval_ns": pp.p.FI})
+					deferred = append(deferred, c19hit{"C19 constructor-rate-outside-1%: the limiter's real rate differs from the configured rate by more than 1 %",
+						map[string]any{"case": key, "rate": pp.rate, "quantum": pp.p.Q, "fillInterval_ns": pp.p.FI}})
 				}
 			}
 			c.o.stat("session_cases", 1)
@@ -856,7 +858,16 @@ func c19sub(c *ctx) {
 				c.o.sample(fmt.Sprintf("%s: %d tx events, %d rx events, virtual duration %.3fs", key, vt.events, vr.events, float64(w.now())/1e9))
 			}
 		}
+		// configuration-level hits after the traffic-level ones, so that a replay leads with a timed failing input
+		for _, h := range deferred {
+			c.o.V(h.sig, h.detail)
+		}
 		c.o.close()
 		os.Exit(0)
 	})
+}
+
+type c19hit struct {
+	sig    string
+	detail map[string]any
 }
